@@ -41,7 +41,7 @@ ANCHORS = [
     "stereomolgraph.graphs.scrg:StereoCondensedReactionGraph.from_graphs#scrg.set_bond_stereo_change(formed=p_stereo, broken=r_stereo)",
 ]
 REQUIRED_ANCHORS = ANCHORS
-REQUIRED = ["triples", "with_ts", "without_ts", "reversals", "double_reversals", "fleeting_bonds", "fleeting_stereo"]
+REQUIRED = ["triples", "with_ts", "without_ts", "reversals", "double_reversals", "fleeting_bonds", "fleeting_stereo", "ts_only_descriptors"]
 
 
 def _bonds(rng, ids, max_deg=4, p=0.35):
@@ -178,6 +178,17 @@ def check_case(ctx, case):
         return
     # reversal
     S = snap(rg)
+    # fleeting stereo: a transition-state descriptor that differs from both the reactant's and the
+    # product's descriptor of that atom must be carried by the reaction graph (as its fleeting stereo)
+    if t is not None:
+        for a, td in t["astereo"].items():
+            rd, pd = r["astereo"].get(a), p["astereo"].get(a)
+            if (rd is None or not sem.desc_equiv(td, rd)) and (pd is None or not sem.desc_equiv(td, pd)):
+                ctx.count("ts_only_descriptors")
+                got_d = S["achange"].get(a, {}).get("FLEETING")
+                if got_d is None or not sem.desc_equiv(td, got_d):
+                    ctx.violate(f"C08/fleeting-stereo-lost/{cls}/{'reactant-equals-product' if (rd is not None and pd is not None and sem.desc_equiv(rd, pd)) else 'reactant-differs-from-product'}", f"atom {a}: transition-state descriptor {td} (reactant {rd}, product {pd}) is not recorded as fleeting stereo: {S['achange'].get(a)}", case)
+                    return
     if S["achange"] or S["bchange"]:
         if any("FLEETING" in v for v in list(S["achange"].values()) + list(S["bchange"].values())):
             ctx.count("fleeting_stereo")
